@@ -168,6 +168,89 @@ fn capacity_race() {
     let _ = c.close();
 }
 
+
+/// C08 (ownership side): heap-owning values travel through insert, in-place replacement,
+/// get_mut, remove, eviction, clear and close while another thread reads them; no value is
+/// handed to two callbacks, and Miri watches every move for double drops and stale references.
+fn value_lifecycle() {
+    use std::sync::Mutex;
+    use stretto::{CacheCallback, Item};
+    struct Rec(Arc<Mutex<Vec<String>>>);
+    impl CacheCallback for Rec {
+        type Value = String;
+        fn on_exit(&self, v: Option<String>) {
+            if let Some(v) = v {
+                self.0.lock().unwrap().push(v);
+            }
+        }
+        fn on_evict(&self, item: Item<String>) {
+            if let Some(v) = item.val {
+                self.0.lock().unwrap().push(v);
+            }
+        }
+        fn on_reject(&self, item: Item<String>) {
+            if let Some(v) = item.val {
+                self.0.lock().unwrap().push(v);
+            }
+        }
+    }
+    let seen = Arc::new(Mutex::new(Vec::new()));
+    let c: Cache<u64, String, TransparentKeyBuilder<u64>, stretto::DefaultCoster<String>, stretto::DefaultUpdateValidator<String>, Rec> =
+        CacheBuilder::new_with_key_builder(64, 6, TransparentKeyBuilder::default())
+            .set_buffer_size(64)
+            .set_ignore_internal_cost(true)
+            .set_cleanup_duration(HOUR)
+            .set_callback(Rec(seen.clone()))
+            .finalize()
+            .unwrap();
+    let c = Arc::new(c);
+    let gate = Gate::new(2);
+    let reader = {
+        let (c, gate) = (c.clone(), gate.clone());
+        std::thread::spawn(move || {
+            gate.pass();
+            for i in 0..10u64 {
+                if let Some(r) = c.get(&(i % 5)) {
+                    let v: String = r.value().clone();
+                    if !v.starts_with(&format!("k{}-", i % 5)) {
+                        fail("C02", "M-foreign-or-stale-value", format!("get({}) returned {:?}", i % 5, v));
+                    }
+                }
+            }
+        })
+    };
+    gate.pass();
+    let mut n = 0u64;
+    let mut val = |k: u64| {
+        n += 1;
+        format!("k{}-{}", k, n)
+    };
+    for k in 0..5u64 {
+        c.insert(k, val(k), 2); // 3 fit, the others evict or are rejected
+    }
+    c.wait().unwrap();
+    c.insert(1, val(1), 2); // replacement of a (possibly) resident key
+    if let Some(mut r) = c.get_mut(&2) {
+        r.write(val(2));
+    }
+    c.remove(&3);
+    c.insert(7, val(7), 2);
+    c.wait().unwrap();
+    c.clear().unwrap();
+    c.insert(8, val(8), 2);
+    c.wait().unwrap();
+    reader.join().unwrap();
+    let _ = c.close();
+    let seen = seen.lock().unwrap();
+    let mut sorted = seen.clone();
+    sorted.sort();
+    for w in sorted.windows(2) {
+        if w[0] == w[1] {
+            fail("C08", "M-value-handed-to-two-callbacks", format!("{:?}", w[0]));
+        }
+    }
+}
+
 fn main() {
     let which = std::env::args().nth(1).unwrap_or_default();
     match which.as_str() {
@@ -175,6 +258,7 @@ fn main() {
         "value_refs" => value_refs(),
         "metrics_many_threads" => metrics_many_threads(),
         "capacity_race" => capacity_race(),
+        "value_lifecycle" => value_lifecycle(),
         other => {
             eprintln!("unknown scenario {:?}", other);
             std::process::exit(2);
